@@ -16,6 +16,24 @@ CHECKS = {
    note="Error causes modelled: duplicate id (alone, in batch, repeated in batch), unknown index, unknown node, duplicate index name, unsupported/unknown compression target, compress of empty index.", ref="6 C05"),
 }
 
+CHECKS.update({
+ "C10": dict(engine="kektor-engine", technique="TLC on Kektor.tla graph profile (Inv_FwdRevAgree, Inv_OneActive, Inv_CleanRestart with edge versions) + replay of TLC behaviours on the real engine comparing all stored versions, as-of queries at every timestamp boundary, forward/reverse views",
+   text="The spec transcribes AddEdge/RemoveEdge/VacuumGraph (forward versions + reverse entries) and the graph part of snapshot, replay and compaction; TLC checks forward/reverse agreement and restart invariance over all link/unlink/vacuum histories within the bound; TLC behaviours are replayed on the real engine and the version set plus the answers of the forward and reverse query interfaces at every boundary are compared (timestamps up to order).",
+   note="Timestamps are compared by rank only. 3 nodes, 1 relation, 2 weights, 2 property maps; inverse relation = same relation name.", ref="6 C10"),
+ "C12": dict(engine="kektor-engine", technique="TLC on Kektor.tla seeded graph profile (Inv_NoEdgeToDead, Prop_DeleteTouchesOnlyIncident, VDeleteCut = cascade cut by shutdown + restart) + replay with the cascade goroutine held at a hook while the engine is closed",
+   text="Delete cascade and its replay repair are spec actions; TLC checks that no active edge created before a delete touches the deleted node, live and after restart, including the case where shutdown cuts the cascade before it unlinked anything; behaviours are replayed on the real engine (the cut is forced with a blocking hook at cascade.start).",
+   note="Cascade is modelled as settled before the next client step except in VDeleteCut; interleaving of client links with a running cascade is not enumerated (C13).", ref="6 C12"),
+ "C14": dict(engine="kektor-writer", technique="TLC on Writer.tla (clients journal/apply split x lazy writer goroutine x SaveSnapshot/RewriteAOF phases x Flush x Close; Inv_NoAckedLoss, Inv_Conservation, Prop_FlushCovers) + complete TLC behaviours forced onto the real engine with blocking hooks, then Close/Open and acked-vs-recovered comparison",
+   text="Every interleaving at channel-operation granularity within 2 clients x 1-3 versions x 1-2 admin procedures is checked by TLC; each complete behaviour is replayed as a forced schedule on the real engine (clients parked between journal and apply, admin goroutine parked between phases) and acknowledged writes are compared with what a restart reads.",
+   note="Writer-internal steps (Recv, Tick) are left to the Go scheduler during replay. Known finding KF-C14-1 (journal/apply gap at Begin) is carried as a named deviation in the spec.", ref="6 C14"),
+ "C15": dict(engine="decay", technique="TLC on Decay.tla (decay factor as exact/bound case analysis; Inv_FnLaws, Inv_MemLaws; Reinforce machine) + one implementation test per TLC state: unexported decay functions via go test -overlay, twin memories and Reinforce behaviours on a real engine",
+   text="TLC enumerates the product of ages, half-lives, access counts, models, pinned forms, layer situations and number types, checks bounds/monotonicity/model points/reinforcement laws on the spec's own rational table and emits every state; each is executed on the real code and compared with exact expectations or order constraints.",
+   note="Ebbinghaus and unknown models by bounds/order only. Similarity itself is C18. Built by a sub-agent; see its report in DESIGN.md.", ref="6 C15"),
+ "C19": dict(engine="http-conformance", technique="TLC on Http.tla (request pipeline over route shapes derived from the current tree x mutation classes; file-system model Touched within Subtree(dataDir)) + every TLC case refined into concrete requests on the real handler chain; recovery marker, state digest around each 4xx, sentinel tree outside the data directory hashed after every request and restart",
+   text="TLC enumerates route shape x mutation class and all file-system behaviours within bounds and checks the required outcome on the reference design; every case is executed against the real server for every route of its shape.",
+   note="Member values inside a class are sampled (seeded); handlers called in-process; routes outside the claim listed in evidence. Built by a sub-agent.", ref="6 C19"),
+})
+
 NOT_YET = {}
 
 def main():
@@ -41,7 +59,11 @@ def main():
         "setup_cmd": "./setup.sh",
         "hooks": hooks,
         "engines": [
-            {"name": "kektor-engine", "path": "spec/Kektor.tla + tools/engine_checks.py + harness/internal/eng", "serves_properties": ["C01", "C04", "C05"],
+            {"name": "kektor-writer", "path": "spec/Writer.tla + tools/check_C14.py + harness/cmd/vreplay/writer.go", "serves_properties": ["C14"],
+             "kind_free_text": "TLA+ spec of the concurrent write path; TLC exhaustive; forced-schedule replay with blocking hooks"},
+            {"name": "decay", "path": "spec/Decay.tla + tools/check_C15.py + harness/cmd/c15decay", "serves_properties": ["C15"], "kind_free_text": "TLA+ case analysis, one implementation test per TLC state"},
+            {"name": "http-conformance", "path": "spec/Http.tla + tools/check_C19.py + harness/cmd/vhttp", "serves_properties": ["C19"], "kind_free_text": "TLA+ request/FS model, cases replayed on the real server"},
+            {"name": "kektor-engine", "path": "spec/Kektor.tla + tools/engine_checks.py + harness/internal/eng", "serves_properties": ["C01", "C04", "C05", "C10", "C12"],
              "kind_free_text": "TLA+ spec of the engine (volatile + durable state), TLC exhaustive check, TLC-generated behaviours replayed on the real engine"},
         ],
         "checks": checks,
